@@ -1404,6 +1404,52 @@ pub mod verif {
         /// After a garbage collection: the bucket at address `data[0]` (still
         /// locked) is about to be unlocked
         pub const CACHE_POST_GC_BUCKET: u32 = 18;
+        /// Slot allocator of the index-based manager: a new store at address
+        /// `data[0]` with `data[1]` slots, `data[2]` terminals, chunk size
+        /// `data[3]`, low / high water mark `data[4]` / `data[5]`
+        pub const ALLOC_NEW: u32 = 32;
+        /// The calling thread (pool worker or collector thread) dedicates its
+        /// thread-local store state to the store `data[0]`
+        pub const ALLOC_BIND: u32 = 33;
+        /// `prepare_local_state` of the store `data[0]`: `data[1]` is 1 iff
+        /// the thread-local state was bound to the store (guard returned)
+        pub const ALLOC_PREPARE: u32 = 34;
+        /// `get_slot_from_shared` of the store `data[0]` (store state locked,
+        /// node count updated): `data[1]` is 1 iff the thread-local state is
+        /// bound to this store, `data[2]` the shared node count (as `i64`),
+        /// `data[3]` the collector state (0 disabled, 1 init, 2 triggered),
+        /// `data[4]` the number of shared free lists, `data[5]` the
+        /// allocation pointer
+        pub const ALLOC_SHARED: u32 = 35;
+        /// `add_node` of the store `data[0]` is done: `data[1]` is the ID of
+        /// the slot (0: out of memory)
+        pub const ALLOC_RESULT: u32 = 36;
+        /// `free_slot` of the store `data[0]` is about to return the slot
+        /// with ID `data[1]`: `data[2]` is 0 for the thread-local list, 1 for
+        /// the thread-local list followed by its hand-over to the shared
+        /// state, 2 if the thread-local state is not bound to this store
+        pub const ALLOC_FREE: u32 = 37;
+        /// `free_slot`, thread-local state not bound to the store: the slot
+        /// with ID `data[0]` is pushed (store state locked), `data[1]` is the
+        /// shared node count, `data[2]` the number of shared free lists
+        pub const ALLOC_FREE_LOCKED: u32 = 38;
+        /// `free_slot` of the store `data[0]`: the hand-over announced by
+        /// `ALLOC_FREE` is done
+        pub const ALLOC_FREE_DONE: u32 = 39;
+        /// The guard of the thread-local state is dropped and slots / counts
+        /// are returned (store state locked): `data[0]` is the head of the
+        /// pushed list (0: none), `data[1]` the thread's initialization
+        /// pointer, `data[2]` the shared node count, `data[3]` the number of
+        /// shared free lists
+        pub const ALLOC_RETURN: u32 = 40;
+        /// The guard of the thread-local state for the store `data[0]` has
+        /// been dropped, `data[1]` is 1 iff `ALLOC_RETURN` was reported
+        pub const ALLOC_GUARD_DROP: u32 = 41;
+        /// The collector thread of the store `data[0]` is done (store state
+        /// locked): `data[1]` is the head of the pushed list (0: none),
+        /// `data[2]` the shared node count, `data[3]` the collector state,
+        /// `data[4]` the number of shared free lists
+        pub const ALLOC_GC_FLUSH: u32 = 42;
     }
 
     /// Callback type: hook site and event data
